@@ -69,6 +69,14 @@ func (c *Ctx) otherContextsM(n *Node, sp bool, M uint64) {
 		k.Fields = [][2]uint64{{0, 0}}
 	}
 	c.runC07(k)
+	// the condition may follow the keyword after a tab or several blanks, and directly
+	// when it starts with a parenthesis or a sign
+	for _, sep := range []string{"\t", "   ", ""} {
+		if sep == "" && !(strings.HasPrefix(e, "(") || strings.HasPrefix(e, "-") || strings.HasPrefix(e, "+")) {
+			continue
+		}
+		c.runC07(&c07case{Kind: "assert", Cfg: cfg, Src: ";assert" + sep + e + "\ndat 0, 0\n", WantErr: k.WantErr, Fields: k.Fields})
+	}
 	// several asserts: each one is a condition of its own
 	k2 := &c07case{Kind: "assert", Cfg: cfg, Src: ";assert 1\n;assert " + e + "\n;assert 2\ndat 0, 0\n", WantErr: k.WantErr, Fields: k.Fields}
 	c.runC07(k2)
